@@ -12,7 +12,7 @@ def write_xyz(path, elements, coords):
     with open(path, "w") as f:
         f.write(f"{len(elements)}\ngenerated molecule\n")
         for el, (x, y, z) in zip(elements, coords):
-            f.write(f"{el} {x:.3f} {y:.3f} {z:.3f}\n")
+            f.write(f"{el} {x:.6f} {y:.6f} {z:.6f}\n")
 
 
 def write_gro(path, elements, coords):
